@@ -121,6 +121,16 @@ pub open spec fn resolves<T: AsRef<Keyspace>>(t: &T, k: &Keyspace) -> bool { cal
     ensures r.iter.at@ == self.nonce.instant && r.nonce.instant == self.nonce.instant, // [C05:snapshot-reads-at-its-own-instant] [C06:scan-reads-at-its-own-instant]
         reads_only_at(*old(w), *final(w), self.nonce.instant), // [C05:snapshot-reads-at-its-own-instant]
 //@end
+//@extract src/snapshot.rs :: Readable for Snapshot :: first_key_value world inherent props=C05
+//@contract
+    requires forall|k: &Keyspace| resolves(&keyspace, k) ==> ks_ok(k),
+    ensures reads_only_at(*old(w), *final(w), self.nonce.instant), // [C05:snapshot-reads-at-its-own-instant]
+//@end
+//@extract src/snapshot.rs :: Readable for Snapshot :: last_key_value world inherent props=C05
+//@contract
+    requires forall|k: &Keyspace| resolves(&keyspace, k) ==> ks_ok(k),
+    ensures reads_only_at(*old(w), *final(w), self.nonce.instant), // [C05:snapshot-reads-at-its-own-instant]
+//@end
 //@extract src/snapshot.rs :: Readable for Snapshot :: range world inherent props=C05+C06
 //@contract
     requires forall|k: &Keyspace| resolves(&keyspace, k) ==> ks_ok(k),
